@@ -237,7 +237,7 @@ def run_case(case):
             rag.append(e)
         leg["ragged"] = rag
         r.index_array = ia
-        leg["dim_variants"] = [{"kind": k, "dims": nd, "res": run_variant(lambda: r.get_sample_from_neighbour_info(v, fill_value=fill_x))}
+        leg["dim_variants"] = [{"kind": k, "dims": nd, "shape": [int(x) for x in v.shape], "res": run_variant(lambda: r.get_sample_from_neighbour_info(v, fill_value=fill_x))}
                                for k, nd, v in dim_variants(data, list(dims), list(geo_dims), None, attrs, case.get("dim_variants") or [])]
     except Exception as e:  # noqa
         leg.update(err(e))
@@ -290,7 +290,7 @@ def run_case(case):
                 e = err(ex)
             rag.append(e)
         fut["ragged"] = rag
-        fut["dim_variants"] = [{"kind": k, "dims": nd, "res": run_variant(
+        fut["dim_variants"] = [{"kind": k, "dims": nd, "shape": [int(x) for x in v.shape], "res": run_variant(
             lambda: KDTreeNearestXarrayResampler(src_x, tgt_x).resample(v, mask_area=mask_area, fill_value=fill_x, radius_of_influence=radius))}
             for k, nd, v in dim_variants(data, list(dims), list(geo_dims), None, attrs, case.get("dim_variants") or [])]
     except Exception as e:  # noqa
